@@ -66,6 +66,18 @@ def make_template(d, shape, rng, crs=False):
             info["attrs"][nm] = {"units": v.units, "long_name": v.long_name}
         tv = ds.createVariable("tmpl", "f8", tuple(info["dims"]))
         tv[:] = numpy.zeros(shape)
+        # a second template variable over its own, equally sized dimensions with other coordinates
+        info["dims2"], info["coords2"] = [], {}
+        for i, n in enumerate(shape):
+            nm = ["row", "col", "band"][i]
+            ds.createDimension(nm, n)
+            v2 = ds.createVariable(nm, "f8", (nm,))
+            v2[:] = numpy.arange(n) * 0.25 - 3
+            v2.units = "index"
+            info["dims2"].append(nm)
+            info["coords2"][nm] = numpy.array(v2[:]).tolist()
+        tv2 = ds.createVariable("tmpl2", "f8", tuple(info["dims2"]))
+        tv2[:] = numpy.ones(shape)
         if crs:
             c = ds.createVariable("crs", "i4", ())
             c.grid_mapping_name = "latitude_longitude"
@@ -113,6 +125,11 @@ def run_read(ctx, case):
         mv = rng.choice(cands) if cands else 77
     elif mvclass == "not-in-data":
         mv = 4242
+    if mv is not None and not integer and stored == "f8" and case["flavour"] == "any":
+        # valid cells very close to - but different from - the missing value stay valid
+        for i in range(n):
+            if rng.random() < 0.3 and not fillmask[i] and vals[i] != mv:
+                vals[i] = mv + rng.choice([0.05, -0.05, 1e-7, -1e-7, 5e-9, abs(mv) * 2 ** -52 if mv else 5e-324])
     path = os.path.join(d, "in.nc")
     with Dataset(path, "w") as ds:
         names = []
@@ -283,6 +300,21 @@ def run_write(ctx, case):
         ok = numpy.ma.getdata(res)[~union] == numpy.ma.getdata(a)[~union].astype(res.dtype)
         if not ok.all():
             ctx.fail("roundtrip:values-differ", {"variable": nm, "written": arr.describe(a, 8), "read": arr.describe(res, 8)})
+            return
+    # the same template *file*, another template variable: its own dimensions and coordinates must be used
+    p3 = os.path.join(d, "other_template_var.nc")
+    o3 = arr.invoke(prog, "EEMSWrite", "W_tmpl2", {"OutFileName": p3, "OutFieldNames": [names[0]], "DimensionFileName": tpath, "DimensionFieldName": "tmpl2"})
+    ctx.count("template_copies_compared")
+    if not o3.ok:
+        ctx.fail("write:second-template-variable-raises-%s" % (o3.inner() or o3.err), {"error": str(o3.exc)[:300]})
+        return
+    with Dataset(p3) as ds:
+        for nm in info["dims2"]:
+            if nm not in ds.variables or numpy.array(ds[nm][:]).tolist() != info["coords2"][nm]:
+                ctx.fail("write:template-of-another-variable-used", {"expected_dimension": nm, "dimensions_written": list(ds.dimensions), "variables": list(ds.variables)})
+                return
+        if tuple(ds[names[0]].dimensions) != tuple(info["dims2"]):
+            ctx.fail("write:template-of-another-variable-used", {"variable_dimensions": list(ds[names[0]].dimensions), "want": info["dims2"]})
             return
     # second step of the history: each result written again on its own, after the joint write
     for k, nm in enumerate(names[:2]):
